@@ -5,7 +5,7 @@
    CloseConnection / RemoveControlConnection / Unregister / KickOld / stale sweep / clock ticks / raw Register /
    raw UpdateAuth / tunnel conversion / transport write failure) under ANY configuration k (connection limits,
    heartbeat timeout); by_client / by_conn are GetControlConnectionByClientID / GetControlConnection. *)
-From TX Require Import Base.Threads Model.Registry Model.RegistryMicro Proofs.Registry Proofs.RegistryCounts Proofs.RegistryMicro.
+From TX Require Import Base.Threads Model.Registry Model.RegistryMicro Model.RegistryCloud Proofs.Registry Proofs.RegistryCounts Proofs.RegistryMicro Proofs.RegistryCloud.
 Open Scope N_scope.
 
 (* (a) looking a client up by id returns nothing or a registered, authenticated connection whose ClientID is that
@@ -173,6 +173,47 @@ Theorem C07_head_reregistration_refuted :
   exists ops x c, by_client (run Head k0 init ops) x = Some c /\ mem c (closed (run Head k0 init ops)) = true.
 Proof. exact head_rereg_refuted. Qed.
 Print Assumptions C07_head_reregistration_refuted.
+
+(* ---- cloud control (Model/RegistryCloud.v): the registry view does not depend on what cloud control answers ---- *)
+(* RemoveControlConnection / CloseConnection with the DisconnectClientIfMatch result made explicit are the plain operations,
+   whatever the result (error, disconnected, skipped, no cloud control) *)
+Theorem C07_teardown_ignores_cloud_result :
+  forall (cc : option cres) (c : N) (s : st),
+  remove_control_connection_cc cc c s = registry_remove c s /\ close_connection_cc cc c s = close_conn c s.
+Proof. intros cc c s. exact (conj (remove_cc_indep cc c s) (close_cc_indep cc c s)). Qed.
+Print Assumptions C07_teardown_ignores_cloud_result.
+
+(* for EVERY fault pattern of cloud control, in every reachable state: after CloseConnection(c) no lookup returns c, it is no
+   session connection, its transport is closed if it was known, and the three counts drop by exactly what c held *)
+Theorem C07_close_under_any_cloud_fault :
+  forall (k : cfg) (ops : list op) (cc : option cres) (c : N),
+  let s := run Current k init ops in
+  let s' := close_connection_cc cc c s in
+  by_conn s' c = None /\ (forall x, by_client s' x <> Some c) /\ mem c (sess s') = false /\
+  (mem c (sess s) = true \/ by_conn s c <> None -> mem c (closed s') = true) /\
+  counts s = (let '(t, ct, tn) := counts s' in
+              (t + b2n (mem c (sess s)), ct + b2n (has (get c (reg s))), tn + b2n (has (get c (tun s))))).
+Proof. exact close_under_any_cloud_fault. Qed.
+Print Assumptions C07_close_under_any_cloud_fault.
+
+(* the variant "notify first, keep the entry when the notification fails" is refuted *)
+Theorem C07_notify_first_variant_refuted :
+  exists ops c x,
+    let s := run Current k0 init ops in
+    let s' := close_connection_notify_first (Some CErr) c s in
+    by_client s' x = Some c /\ mem c (closed s') = true /\ mem c (sess s') = false /\ counts s' = (0, 1, 0).
+Proof. exact notify_first_refuted. Qed.
+Print Assumptions C07_notify_first_variant_refuted.
+
+(* only authenticated connections are indexed by client id: statement (a) above quantifies over histories that contain
+   Register of a record with a pre-filled ClientID and Authenticated = false (RegClaim); concretely such a record neither
+   displaces the client's authenticated connection nor stays in the index after it is closed *)
+Theorem C07_unauthenticated_claim_is_never_current :
+  let s := run Current k0 init [Accept 1; Accept 2; Handshake 1 0 7 true; RegClaim 2 7] in
+  by_client s 7 = Some 1 /\ (exists r, by_conn s 2 = Some r /\ c_auth r = false /\ c_cid r = 7) /\
+  by_client (close_conn 2 s) 7 = Some 1 /\ by_conn (close_conn 2 s) 2 = None /\ counts (close_conn 2 s) = (1, 1, 0).
+Proof. exact claim_demo. Qed.
+Print Assumptions C07_unauthenticated_claim_is_never_current.
 
 (* the defect of the pinned tree (repaired by fixes/C07-reauth-stale-index.diff), kept as refuted statements:
    Register; UpdateAuth 100; UpdateAuth 200; Remove  leaves id 100 resolving to a closed, unregistered connection *)
